@@ -112,11 +112,13 @@ func (m *Metrics) Write(w io.Writer) error {
 				break
 			}
 		}
-		llx := int(math.Floor(g.BBox.LLx))
-		lly := int(math.Floor(g.BBox.LLy))
-		urx := int(math.Ceil(g.BBox.URx))
-		ury := int(math.Ceil(g.BBox.URy))
-		line := fmt.Sprintf("C %d ; WX %.0f ; N %s ; B %d %d %d %d ;",
+		// formatted as floats: converting to int is undefined for NaN,
+		// infinities and values beyond the int range
+		llx := math.Floor(g.BBox.LLx)
+		lly := math.Floor(g.BBox.LLy)
+		urx := math.Ceil(g.BBox.URx)
+		ury := math.Ceil(g.BBox.URy)
+		line := fmt.Sprintf("C %d ; WX %.0f ; N %s ; B %.0f %.0f %.0f %.0f ;",
 			charCode, g.WidthX, name, llx, lly, urx, ury)
 		succs := make([]string, 0, len(g.Ligatures))
 		for succ := range g.Ligatures {
